@@ -21,7 +21,14 @@ impl<'a> Read for SchedReader<'a> {
         if let Some(k) = self.fail_at {
             if self.pos >= k {
                 self.fail_at = None;
-                return Err(io::Error::new(io::ErrorKind::Other, "injected read fault"));
+                // rotate through error kinds: the property makes no exception for any of them
+                let kind = match k % 4 {
+                    0 => io::ErrorKind::Other,
+                    1 => io::ErrorKind::Interrupted,
+                    2 => io::ErrorKind::WouldBlock,
+                    _ => io::ErrorKind::UnexpectedEof,
+                };
+                return Err(io::Error::new(kind, "injected read fault"));
             }
         }
         let want = self.sched[self.i % self.sched.len()];
